@@ -105,6 +105,10 @@ func gmMonitors() int {
 
 var gmEPNames = []string{"A", "B", "C", "D", "E"}
 
+// gmNoName: the context carries no MultiEndpoint name at all (as opposed to
+// naming the MultiEndpoint "").
+const gmNoName = "<no name in context>"
+
 type gmWalk struct {
 	rng    *vRand
 	eps    map[string]*gmEP
@@ -126,6 +130,7 @@ type gmWalk struct {
 	idx    int64
 	// endpoints dialled by a rejected update (C16)
 	rolledBack []string
+	slowDial   bool
 }
 
 func (w *gmWalk) say(f string, a ...interface{}) { w.log = append(w.log, fmt.Sprintf(f, a...)) }
@@ -163,7 +168,11 @@ func (w *gmWalk) dialFunc(ctx context.Context, target string, dopts ...grpc.Dial
 	n := w.dialN
 	fail := w.failAt != 0 && n == w.failAt
 	w.order = append(w.order, target)
+	slow := w.slowDial
 	w.dialMu.Unlock()
+	if slow {
+		time.Sleep(3 * time.Millisecond)
+	}
 	if fail {
 		return nil, fmt.Errorf("verif: injected dial failure for %s", target)
 	}
@@ -193,7 +202,7 @@ func (w *gmWalk) dopts() []grpc.DialOption {
 
 func (w *gmWalk) genOpts() *GCPMultiEndpointOptions {
 	n := 1 + w.rng.Intn(3)
-	names := []string{"default", "read", "write", "x"}
+	names := []string{"default", "read", "write", "x", ""} // the empty string is a legal MultiEndpoint name
 	for i := len(names) - 1; i > 0; i-- {
 		j := w.rng.Intn(i + 1)
 		names[i], names[j] = names[j], names[i]
@@ -243,7 +252,7 @@ func (w *gmWalk) call(name string, stream bool) (res string, err error) {
 	}()
 	ctx, cancel := context.WithTimeout(context.Background(), 2*time.Second)
 	defer cancel()
-	if name != "" {
+	if name != gmNoName {
 		ctx = NewMEContext(ctx, name)
 	}
 	var out wrapperspb.StringValue
@@ -345,7 +354,7 @@ func (w *gmWalk) settle() bool {
 
 func (w *gmWalk) expect(name string) (string, bool) {
 	l, ok := w.mes[name]
-	if !ok {
+	if !ok || name == gmNoName {
 		l = w.mes[w.def]
 	}
 	for _, e := range l {
@@ -357,7 +366,7 @@ func (w *gmWalk) expect(name string) (string, bool) {
 }
 
 func (w *gmWalk) ctxNames() []string {
-	names := []string{"", "nosuch"}
+	names := []string{gmNoName, "nosuch"}
 	var ks []string
 	for n := range w.mes {
 		ks = append(ks, n)
@@ -389,7 +398,7 @@ func (w *gmWalk) checkRouting(tag string) {
 			}
 		}
 		kind := "known"
-		if n == "" {
+		if n == gmNoName {
 			kind = "no-name"
 		} else if _, ok := w.mes[n]; !ok {
 			kind = "unknown-name"
@@ -452,7 +461,8 @@ func (w *gmWalk) setModel(o *GCPMultiEndpointOptions) {
 
 func (w *gmWalk) update() {
 	o := w.genOpts()
-	w.say("update %s", gmDescribe(o))
+	concurrent := w.rng.Intn(4) == 0
+	w.say("update %s%s", gmDescribe(o), map[bool]string{true: " (two concurrent calls with the same options)", false: ""}[concurrent])
 	before := map[string]int{}
 	w.dialMu.Lock()
 	for k, v := range w.dials {
@@ -466,7 +476,32 @@ func (w *gmWalk) update() {
 			keptReady[e] = true
 		}
 	}
-	if err := w.gme.UpdateMultiEndpoints(o); err != nil {
+	var err error
+	if concurrent {
+		// the same reconfiguration issued twice concurrently (two components
+		// reacting to the same event); dials are slowed down a little so that the
+		// calls overlap if the implementation lets them
+		w.hit("C15.concurrent-updates")
+		w.dialMu.Lock()
+		w.slowDial = true
+		w.dialMu.Unlock()
+		o2 := *o
+		errs := make(chan error, 2)
+		go func() { errs <- w.gme.UpdateMultiEndpoints(o) }()
+		go func() { errs <- w.gme.UpdateMultiEndpoints(&o2) }()
+		e1, e2 := <-errs, <-errs
+		w.dialMu.Lock()
+		w.slowDial = false
+		w.dialMu.Unlock()
+		if e1 != nil {
+			err = e1
+		} else {
+			err = e2
+		}
+	} else {
+		err = w.gme.UpdateMultiEndpoints(o)
+	}
+	if err != nil {
 		w.fail("C15.update-error", "", "valid update rejected: %v", err)
 		return
 	}
@@ -764,7 +799,82 @@ func (w *gmWalk) settleAllReady() bool {
 	return false
 }
 
+// gmDelayedSwitchRemoved: a MultiEndpoint with a switching delay; an accepted
+// update adds a higher-priority endpoint (a delayed switch to it becomes
+// pending once its pool is READY), a second accepted update removes it again
+// inside the delay. After the delay no RPC may panic or use the closed pool.
+func gmDelayedSwitchRemoved(rng *vRand, idx int64) *gmWalk {
+	w := gmNewWalk(rng, idx)
+	defer w.stopServers()
+	baseline, _ := gmClientStacks()
+	delay := time.Duration(60+rng.Intn(60)) * time.Millisecond
+	mk := func(l ...string) *GCPMultiEndpointOptions {
+		return &GCPMultiEndpointOptions{GRPCgcpConfig: &pb.ApiConfig{}, Default: "default", DialFunc: w.dialFunc,
+			MultiEndpoints: map[string]*multiendpoint.MultiEndpointOptions{"default": {Endpoints: l, SwitchingDelay: delay}}}
+	}
+	g, err := NewGCPMultiEndpoint(mk("A"), w.dopts()...)
+	if err != nil {
+		w.fail("C16.construct", "", "valid options rejected: %v", err)
+		return w
+	}
+	w.gme = g
+	w.setModel(mk("A"))
+	w.say("init default=[A] switching delay %v", delay)
+	if !w.settleAllReady() {
+		w.incon++
+		w.cleanup()
+		return w
+	}
+	w.say("update default=[B A] (accepted): B is dialled, a delayed switch to B becomes pending when B is READY")
+	if err := g.UpdateMultiEndpoints(mk("B", "A")); err != nil {
+		w.fail("C15.update-error", "", "valid update rejected: %v", err)
+		w.cleanup()
+		return w
+	}
+	w.setModel(mk("B", "A"))
+	// wait until B's pool is READY (the switch is then pending for `delay`)
+	for t0 := time.Now(); time.Since(t0) < 5*time.Second; time.Sleep(time.Millisecond) {
+		if c := w.openConn("B"); c != nil && c.GetState() == connectivity.Ready {
+			break
+		}
+	}
+	time.Sleep(time.Duration(rng.Intn(20)) * time.Millisecond)
+	w.say("update default=[A] (accepted) inside the delay: B is removed, its pool closed")
+	if err := g.UpdateMultiEndpoints(mk("A")); err != nil {
+		w.fail("C15.update-error", "", "valid update rejected: %v", err)
+		w.cleanup()
+		return w
+	}
+	w.setModel(mk("A"))
+	time.Sleep(delay + 40*time.Millisecond)
+	w.hit("C16.delayed-switch-target-removed")
+	for i := 0; i < 3; i++ {
+		got, err := w.call(gmNoName, false)
+		if err != nil && strings.HasPrefix(err.Error(), "PANIC") {
+			w.fail("C16.rpc-after-update", "panic", "after two accepted updates (add B, remove B inside the switching delay) an RPC panicked: %v", err)
+			break
+		}
+		if err != nil && strings.Contains(err.Error(), "closing") {
+			w.fail("C16.rpc-after-update", "closed-pool", "after two accepted updates an RPC was sent to the closed pool of the removed endpoint: %v", err)
+			break
+		}
+		if err == nil && got != "A" {
+			w.fail("C16.rpc-after-update", "wrong-endpoint", "RPC served by %q, only A is configured", got)
+			break
+		}
+	}
+	if w.viol == nil {
+		w.closeAndCheck(baseline)
+	} else {
+		w.cleanup()
+	}
+	return w
+}
+
 func gmRunC16(rng *vRand, idx int64) *gmWalk {
+	if idx%8 == 5 {
+		return gmDelayedSwitchRemoved(rng, idx)
+	}
 	w := gmNewWalk(rng, idx)
 	defer w.stopServers()
 	baseline, _ := gmClientStacks()
